@@ -283,4 +283,7 @@ def check(ctx):
                         ctx.violation('R5.getters', fsite(gf), '%s() does not return %s_' % (gname, gname),
                                       {'returns': T.pretty(s.ret)[:120]})
                 ctx.guard('R5.getters', fsite(gf), rget)
+    # the generator stored after an iteration is at calls x d x usage also on every MPI rank: the
+    # skips before and after a rank's share are the split formulas (shared with C16)
+    share(ctx, 'C16', 'R6/C16.', ['R1.', 'R2.'])
 
